@@ -35,8 +35,10 @@ def hostile_trace(rng, n):
                                    {"op": "set_uio", "k": rng.randrange(1, 4), "v": rng.random() < 0.5}, {"op": "set_di1", "v": rng.randrange(256)}]))
         elif r < 0.94:
             ops.append({"op": "bus_write", "a": rng.choice([rng.randrange(0xF0, 0x100), rng.randrange(256)]), "v": rng.randrange(256)})
-        else:
+        elif r < 0.98:
             ops.append({"op": "bus_read", "a": rng.choice([rng.randrange(0xF0, 0x100), rng.randrange(256)])})
+        else:
+            ops += ic.board_irq_ops(rng)
     ops.append({"op": "checkpoint"})
     return ops
 
